@@ -406,7 +406,8 @@ def run(ctx):
     rnd = random.Random(ctx["seed"])
     nstreams = 150 if tier == "quick" else 5000
     cases = []   # (stream bytes, chunks list)
-    meta = {"streams": 0, "with_invalid_tail": 0, "one_byte_chunks": 0, "exhaustive_partitions": 0}
+    meta = {"streams": 0, "with_invalid_tail": 0, "one_byte_chunks": 0, "exhaustive_partitions": 0, "stream_oracle_checked": 0}
+    expect = {}   # stream -> (hex of the valid messages in front, nothing else follows)
     for si in range(nstreams):
         n = rnd.choice((1, 1, 2, 3, 5, 8))
         msgs = [wiregen.encode(wiregen.rand_message(rnd, max_depth=rnd.choice((0, 1, 2, 3)))) for _ in range(n)]
@@ -419,6 +420,7 @@ def run(ctx):
             bounds.append((off, wiregen.header_len(m), len(m)))
             off += len(m)
         stream = b"".join(msgs)
+        expect[stream] = ([m.hex() for m in msgs], True)
         if rnd.random() < 0.5:
             bad = bytearray(wiregen.encode(wiregen.rand_message(rnd, max_depth=1)))
             i = rnd.randrange(len(bad))
@@ -426,6 +428,7 @@ def run(ctx):
             tail = bytes(bad) + b"".join(wiregen.encode(wiregen.rand_message(rnd, max_depth=1)) for _ in range(rnd.randint(0, 2)))
             bounds.append((len(stream), wiregen.header_len(bytes(bad)) if len(bad) >= 16 else 16, len(bad)))
             stream += tail
+            expect[stream] = ([m.hex() for m in msgs], False)
             meta["with_invalid_tail"] += 1
         meta["streams"] += 1
         for cuts in interesting_cuts(stream, bounds, rnd, 8 if tier == "quick" else 30):
@@ -436,6 +439,7 @@ def run(ctx):
     from rawbus import Msg
     tiny = Msg(2, 0, 1, {5: 1}).encode() + Msg(2, 0, 2, {5: 2}, le=False).encode()
     pts = [1, 4, 12, 15, 16, 17, 23, 24, 25, 28, 36, 40, 41, 47]
+    expect[tiny] = ([tiny[:24].hex(), tiny[24:].hex()], True)
     for mask in range(1 << len(pts)) if tier != "quick" else range(0, 1 << len(pts), 7):
         cuts = [p for i, p in enumerate(pts) if mask >> i & 1]
         cases.append((tiny, split_at(tiny, cuts)))
@@ -484,6 +488,18 @@ def run(ctx):
             continue
         if len(chunks) > 1:
             nontrivial.add(l)
+        # oracle stated by C11_stream_delivery / _then_corruption, independent of the model: the valid messages in front are
+        # queued one for one, in order, with exactly their bytes; with nothing else in the stream there is no corruption verdict
+        if stream in expect:
+            want, clean = expect[stream]
+            gotm = [x for x in outcome(i)[1].split("|") if x not in ("", "-")]
+            meta["stream_oracle_checked"] += 1
+            if gotm[:len(want)] != want or (clean and (outcome(i)[0] != "0" or len(gotm) != len(want))):
+                rep.violation("stream of %d valid messages%s in chunks %s: the loader queued %d messages, corrupted=%s; the first difference is at message %d" % (
+                    len(want), "" if clean else " followed by other bytes", [len(c) for c in chunks][:40], len(gotm), outcome(i)[0],
+                    next((k for k in range(len(want)) if k >= len(gotm) or gotm[k] != want[k]), len(want))),
+                    {"cmd": l, "impl_chunked": i, "expected_messages": len(want)})
+                continue
         if outcome(i) != outcome(i1):
             rep.violation("chunked feed gives a different outcome than the unsplit stream: chunks %s -> %s ; unsplit -> %s" % ([len(c) for c in chunks][:40], i[:160], i1[:160]),
                           {"cmd": l, "impl_chunked": i, "impl_unsplit": i1})
